@@ -14,9 +14,12 @@ reorder identifier tokens, so a position that is the start of an identifier toke
 hard keyword and not the conversion letter after '!' in an f-string) is mapped to the ordinal of that
 token among the identifier tokens of its text; the position of an `except ... as n` binding (it points at
 the `except` keyword) to the ordinal of that keyword; an alternative to the ordinal of its `declared_at`
-or to 'undefined' / 'builtin'.  The correspondence itself is validated on every pair (same identifier
-strings in the same order, every i-th Load name at the same ordinal); a pair failing that is discarded
-and counted (the stdlib unparser moves `*args` in front of keywords).
+or to 'undefined' / 'builtin'.  The correspondence itself is validated on every pair: same identifier
+strings in the same order and every i-th Load name at the same ordinal; when a printer has moved whole
+subtrees (the stdlib unparser writes `f(k=b, *a)` as `f(*a, k=b)`) the tokens are aligned through the two
+identical trees instead (tokens a node owns correspond in order, children by tree position; every Name / arg
+node must land on its counterpart) and the second analysis is renumbered.  A pair that cannot be aligned is
+discarded and counted.
 
 A position that is not the start of an identifier token is described by (token text at that position,
 number of identifier tokens before it).  Wrong positions as such are C11's business: when BOTH layouts
@@ -40,6 +43,8 @@ import warnings
 from vf import core, corpus, relayout
 
 HARD_KEYWORDS = frozenset(keyword.kwlist)
+_STRINGISH = (tokenize.STRING, getattr(tokenize, 'FSTRING_START', -1), getattr(tokenize, 'FSTRING_MIDDLE', -2),
+              getattr(tokenize, 'FSTRING_END', -3))
 MAX_STORED_PER_MECH = 4
 
 
@@ -83,10 +88,12 @@ class TokMap(object):
             if cur is None:
                 cur = {'first': t.start[0], 'last': t.end[0], 'semis': 0, 'bs': False, 'brnl': False,
                        'comment': False, 'inline': False, 'deco': t.string == '@', 'col': t.start[1],
-                       'kw': t.string if t.string in HARD_KEYWORDS else None, 'colon0': False}
+                       'kw': t.string if t.string in HARD_KEYWORDS else None, 'colon0': False, 'mlstr': False}
                 last_sig_row = t.start[0]
             else:
                 if t.start[0] != last_sig_row:
+                    if prev is not None and prev.type in _STRINGISH and tt in _STRINGISH:
+                        cur['mlstr'] = True     # string literals concatenated over several lines
                     # the logical line continues on another physical line
                     if depth > 0:
                         cur['brnl'] = True
@@ -94,6 +101,8 @@ class TokMap(object):
                         cur['bs'] = True
                 if cur['colon0'] and depth == 0:
                     cur['inline'] = True
+            if t.start[0] != t.end[0] and tt in _STRINGISH:
+                cur['mlstr'] = True             # a string token that runs over several lines
             last_sig_row = t.end[0]
             cur['last'] = t.end[0]
             self.tok_at[t.start] = t.string
@@ -137,8 +146,24 @@ class TokMap(object):
             return ('except', o)
         return ('other', self.tok_at.get(pos), bisect.bisect_left(self.id_pos, pos))
 
+    # ordinals handed to line_features / ll / pos_of are those of the base text of the pair; when the identifier
+    # tokens of this text are a permutation of them (from_a set by establish_correspondence) they are translated
+    from_a = None
+
+    def own(self, ordinal):
+        if ordinal is not None and self.from_a is not None and 0 <= ordinal < len(self.from_a):
+            return self.from_a[ordinal]
+        return ordinal
+
+    def ll(self, ordinal):
+        return self.ll_of[self.own(ordinal)]
+
+    def pos_of(self, ordinal):
+        return self.id_pos[self.own(ordinal)]
+
     def line_features(self, ordinal):
         """layout facts about the logical line holding identifier token #ordinal"""
+        ordinal = self.own(ordinal)
         if ordinal is None or ordinal >= len(self.ll_of) or self.ll_of[ordinal] >= len(self.lls):
             return None
         return self.lls[self.ll_of[ordinal]]
@@ -181,6 +206,7 @@ def analyse(text, filename, root, want_reads=True):
         a.rows.append((r[0], r[1], tm.key((r[2], r[3])), (r[2], r[3])))
 
     a.scope_exc = None
+    a.tree = None
     a.reads = []        # (ordinal|None, id, vis, alts, pos)
     if not want_reads:
         return a
@@ -189,7 +215,7 @@ def analyse(text, filename, root, want_reads=True):
             warnings.simplefilter('ignore')
             src = Source(text, filename)
             extract_scope(src, Project([root]))
-            tree = src.tree
+            tree = a.tree = src.tree
     except RecursionError:
         a.scope_exc = 'RecursionError'
         return a
@@ -241,12 +267,103 @@ def analyse(text, filename, root, want_reads=True):
 # ------------------------------------------------------------------------------------------------
 # comparison of two analyses
 
-def correspondence_ok(A, B):
-    """identifier tokens are the same strings in the same order and every i-th read sits at the same ordinal"""
-    if A.tm.id_str != B.tm.id_str:
-        return 'identifier-token-sequence'
-    if len(A.tm.exc_ord) != len(B.tm.exc_ord):
-        return 'except-keyword-count'
+def _pos_children(node):
+    """nearest descendants that carry a source span, in AST field order (span-less nodes are transparent)"""
+    out = []
+    stack = list(ast.iter_child_nodes(node))[::-1]
+    while stack:
+        c = stack.pop()
+        if getattr(c, 'end_lineno', None) is not None and getattr(c, 'lineno', None) is not None:
+            out.append(c)
+        else:
+            stack.extend(list(ast.iter_child_nodes(c))[::-1])
+    return out
+
+
+def _ord_range(tm, node):
+    start = (node.lineno, node.col_offset)
+    for d in getattr(node, 'decorator_list', ()):
+        # the span of a def / class starts at its keyword; its decorators belong to it all the same
+        start = min(start, (d.lineno, d.col_offset))
+    return (bisect.bisect_left(tm.id_pos, start),
+            bisect.bisect_left(tm.id_pos, (node.end_lineno, node.end_col_offset)))
+
+
+def _own(rng, child_ranges):
+    """ordinals of rng = (lo, hi) that lie in none of the child ranges"""
+    out = []
+    cur = rng[0]
+    for lo, hi in sorted(child_ranges):
+        if hi <= cur or lo >= rng[1]:
+            continue
+        out.extend(range(cur, min(lo, rng[1])))
+        cur = max(cur, hi)
+    out.extend(range(cur, rng[1]))
+    return out
+
+
+def token_permutation(A, B):
+    """identifier tokens of B -> identifier tokens of A through the (identical) trees: the tokens a node owns
+    (those in its span and in no child's span) correspond in order, children correspond by position in the
+    tree.  This holds for any printer that moves whole subtrees (the stdlib unparser writes `f(k=b, *a)` as
+    `f(*a, k=b)`).  -> list to_a (to_a[ordinal in B] = ordinal in A) or None when the texts do not align."""
+    try:
+        ta = A.tree or relayout.parse_quiet(A.text)
+        tb = B.tree or relayout.parse_quiet(B.text)
+    except (SyntaxError, ValueError, RecursionError):
+        return None
+    na, nb = len(A.tm.id_pos), len(B.tm.id_pos)
+    if na != nb:
+        return None
+    to_a = [None] * nb
+    stack = [(ta, tb, (0, na), (0, nb))]
+    while stack:
+        x, y, rx, ry = stack.pop()
+        cx, cy = _pos_children(x), _pos_children(y)
+        if len(cx) != len(cy):
+            return None
+        rcx = [_ord_range(A.tm, c) for c in cx]
+        rcy = [_ord_range(B.tm, c) for c in cy]
+        ox, oy = _own(rx, rcx), _own(ry, rcy)
+        if len(ox) != len(oy):
+            return None
+        for i, j in zip(ox, oy):
+            if A.tm.id_str[i] != B.tm.id_str[j] or to_a[j] is not None:
+                return None
+            to_a[j] = i
+        for c, d, r1, r2 in zip(cx, cy, rcx, rcy):
+            if type(c) is not type(d):
+                return None
+            stack.append((c, d, r1, r2))
+    if any(v is None for v in to_a) or len(set(to_a)) != nb:
+        return None
+    # every Name / arg node must map onto its counterpart
+    for c, d in zip(ast.walk(ta), ast.walk(tb)):
+        if isinstance(c, (ast.Name, ast.arg)):
+            i = A.tm.id_ord.get((c.lineno, c.col_offset))
+            j = B.tm.id_ord.get((d.lineno, d.col_offset))
+            if i is not None and j is not None and to_a[j] != i:
+                return None
+    return to_a
+
+
+def renumber(B, to_a):
+    """express everything the analysis B says in the ordinals of the base text"""
+    def tr(k):
+        if k and k[0] == 'id':
+            return (k[0], to_a[k[1]]) + tuple(k[2:])
+        return k
+    B.rows = [(r[0], r[1], tr(r[2]), r[3]) for r in B.rows]
+    B.reads = [(to_a[r[0]] if r[0] is not None else None, r[1], r[2],
+                tuple(sorted((tr(k) for k in r[3]), key=repr)), r[4]) for r in B.reads]
+    from_a = [0] * len(to_a)
+    for j, i in enumerate(to_a):
+        from_a[i] = j
+    B.tm.to_a = to_a
+    B.tm.from_a = from_a
+
+
+def _reads_aligned(A, B):
     if A.scope_exc is None and B.scope_exc is None:
         if len(A.reads) != len(B.reads):
             return 'read-count'
@@ -256,6 +373,24 @@ def correspondence_ok(A, B):
             if ra[0] is not None and rb[0] is not None and ra[0] != rb[0]:
                 return 'read-ordinal'
     return None
+
+
+def correspondence_ok(A, B, count=None):
+    """None when the identifier tokens of both texts correspond (same strings in the same order and every i-th read
+    at the same ordinal; or, failing that, alignable through the trees - B is then renumbered), else the reason"""
+    if len(A.tm.exc_ord) != len(B.tm.exc_ord):
+        return 'except-keyword-count'
+    if A.tm.id_str == B.tm.id_str and _reads_aligned(A, B) is None:
+        return None
+    if sorted(A.tm.id_str) != sorted(B.tm.id_str):
+        return 'identifier-token-multiset'
+    to_a = token_permutation(A, B)
+    if to_a is None:
+        return 'identifier-tokens-not-alignable-through-the-tree'
+    renumber(B, to_a)
+    if count is not None:
+        count('pairs_with_reordered_identifier_tokens(aligned through the tree)')
+    return _reads_aligned(A, B)
 
 
 def compare(A, B, count):
@@ -411,7 +546,7 @@ class Roles(object):
             self.top_rows.append((max(1, row), st.end_lineno))
 
     def top_index(self, ordinal):
-        pos = self.tm.id_pos[ordinal]
+        pos = self.tm.pos_of(ordinal)
         best = None
         for i, st in enumerate(self.tree.body):
             lo = (self.top_rows[i][0], 0)
@@ -542,8 +677,8 @@ def label(diff, A, B, ra=None, rb=None):
         if o in ra.in_deco and spans_lines_differently(A, B, o):
             feats.append('decorator-line')
         if read_o is not None:
-            same_a = A.tm.ll_of[o] == A.tm.ll_of[read_o]
-            same_b = B.tm.ll_of[o] == B.tm.ll_of[read_o]
+            same_a = A.tm.ll(o) == A.tm.ll(read_o)
+            same_b = B.tm.ll(o) == B.tm.ll(read_o)
             if same_a != same_b:
                 f = (A if same_a else B).tm.line_features(read_o)
                 feats.append('one-line-compound' if f and f['inline'] else 'semicolon-joined')
@@ -556,6 +691,13 @@ def label(diff, A, B, ra=None, rb=None):
             seen.append(f)
     seen.sort(key=lambda f: PRIORITY.index(f) if f in PRIORITY else -1)
     feat = seen[0] if seen else 'layout-elsewhere'
+    if feat in ('one-line-compound', 'semicolon-joined', 'bracket-newline', 'backslash-continuation'):
+        # the lines concerned hold a string literal that runs over several physical lines
+        for o in list(bind_os) + ([read_o] if read_o is not None else []):
+            fa, fb = A.tm.line_features(o), B.tm.line_features(o)
+            if (fa and fa.get('mlstr')) or (fb and fb.get('mlstr')):
+                feat += '+multi-line-string'
+                break
     details_role = bind_role
     mech = '%s:%s-%s' % (feat, bind_role or 'unknown-binding', what)
     if feat == 'decorator-line' and read_o is not None and read_o in ra.first_body_deco:
@@ -693,9 +835,10 @@ class Monitor(object):
             return False
         p.count('pairs_ast_identical')
         B = analyse(text2, filename, root)
-        why = correspondence_ok(A, B)
+        why = correspondence_ok(A, B, self.count)
         if why:
             p.count('pairs_discarded:correspondence:' + why)
+            p.hist('discarded_correspondence_by_kind_and_base', '%s/%s' % (meta.get('kind'), meta.get('base')))
             return False
         diffs = compare(A, B, self.count)
         p.count('pairs_compared')
@@ -710,7 +853,7 @@ class Monitor(object):
             self.report(diffs, A, B, meta, filename, root)
         return True
 
-    def text(self, text, filename, root, meta, key, k, rng, bases=None):
+    def text(self, text, filename, root, meta, key, k, rng, base=None):
         """one text against its ast.unparse normal form and k random re-layouts"""
         p = self.p
         if not self.usable(text):
@@ -746,11 +889,11 @@ class Monitor(object):
         for j in range(k):
             r = random.Random('%s:%s' % (rng, j))
             try:
-                t2, applied, base = relayout.relayout(text, tree, r)
+                t2, applied, used_base = relayout.relayout(text, tree, r, base=base)
             except (RecursionError, ValueError, tokenize.TokenError, SyntaxError, IndentationError) as e:
                 p.count('relayout_failed:' + type(e).__name__)
                 continue
-            m = dict(meta, base=base, layout=j, layout_rng='%s:%s' % (rng, j))
+            m = dict(meta, base=used_base, layout=j, layout_rng='%s:%s' % (rng, j))
             self.pair(A, t2, m, filename, root, '%s#%d' % (key, j), applied)
 
 
@@ -810,6 +953,166 @@ def work_gen(arg):
             meta = {'kind': 'gen', 'index': i, 'seed': seed, 'root_kind': 'gen'}
             mon.text(g['text'], proj.filename, proj.root, meta, 'gen:%s:%s' % (seed, i), k,
                      '%s:C13:genlayout:%s' % (seed, i))
+    finally:
+        proj.close()
+    out = part.dump()
+    _strip(out, proj.root)
+    return out
+
+
+# ------------------------------------------------------------------------------------------------
+# G-mls: bindings whose value ends in a string literal that runs over several physical lines, read on the
+# line where the literal ends.  The stdlib unparser renders every string on one line, so only texts that
+# keep the author's string tokens can show what an analysis does with them; G-prog has no such literals.
+
+MLS_CONSTRUCTS = ('assign', 'augassign', 'annassign', 'walrus-stmt', 'walrus-operand', 'walrus-if', 'for-iter',
+                  'with-item', 'with-second-item', 'assign-in-for-body', 'return-after')
+MLS_SHAPES = ('triple', 'triple-bytes', 'triple-f', 'triple-raw', 'concat', 'concat-triple', 'call-last-arg',
+              'call-last-arg-next-line', 'call-kw', 'method-call', 'subscript', 'binop', 'mod', 'list-last',
+              'dict-last-value', 'ifexp-else', 'call-kw-before-star')
+_WORDS = ['alpha', 'beta', 'gamma gamma', 'delta:', '<html>', '</p>', 'x', 'ok', '%s', 'end of text', '-', '']
+_Q3 = ['"' * 3, "'" * 3]
+
+
+def mls_value(shape, rng, cont):
+    """-> source text of an expression whose textually last part is a multi-line string; `cont` = indentation of
+    continuation lines inside brackets (small, so that what follows the literal sits at a small column)"""
+    w1, w2, w3 = rng.choice(_WORDS[:8]), rng.choice(['', 'x', 'ok', '-', '</p>']), rng.choice(_WORDS[:6])
+    q3 = rng.choice(_Q3)
+    t = '%s%s\n%s%s' % (q3, w1, w2, q3)
+    if rng.random() < 0.3:
+        t = '%s%s\n%s\n%s%s' % (q3, w1, w3, w2, q3)
+    if shape == 'triple':
+        return t
+    if shape == 'triple-bytes':
+        return 'b' + t
+    if shape == 'triple-raw':
+        return rng.choice(['r', 'R', 'u', 'rb']) + t
+    if shape == 'triple-f':
+        return 'f%s%s {q}\n%s%s' % (q3, w1, w2, q3)
+    if shape == 'concat':
+        return '("%s"\n%s"%s")' % (w1, cont, w2)
+    if shape == 'concat-triple':
+        return '(%s\n%s"%s")' % (t, cont, w2)
+    if shape == 'call-last-arg':
+        return 'v(q, %s)' % t
+    if shape == 'call-last-arg-next-line':
+        return 'v(q,\n%s%s)' % (cont, t)
+    if shape == 'call-kw':
+        return 'v(k=%s)' % t
+    if shape == 'method-call':
+        return '%s.strip()' % t
+    if shape == 'subscript':
+        return 'q[%s]' % t
+    if shape == 'binop':
+        return 'q + %s' % t
+    if shape == 'mod':
+        return '%s %% q' % t
+    if shape == 'list-last':
+        return '[q, %s]' % t
+    if shape == 'dict-last-value':
+        return '{q: %s}' % t
+    if shape == 'ifexp-else':
+        return '(q if q() else %s)' % t
+    if shape == 'call-kw-before-star':
+        return 'v(k=%s, *q)' % t
+    raise ValueError(shape)
+
+
+def mls_pair(construct, shape, rng):
+    """-> (split layout, joined layout) of one small program, or None"""
+    long_name = rng.random() < 0.8
+    n = rng.choice(['page_template_text', 'long_banner_message_', 'usage_text_of_the_tool']) if long_name else rng.choice(['x', 'y'])
+    in_def = rng.random() < 0.5
+    ind = '    ' if in_def else ''
+    cont = ' ' * rng.choice([0, 0, 1, 2])
+    pad = ' ' * rng.choice([1, 1, 1, 4, 12])
+    V = mls_value(shape, rng, cont)
+    sep = rng.choice(['; ', ';', ' ; '])
+    read = rng.choice(['v(%s)', 'q(v, %s)', '%s', 'w = %s']) % n
+    head = 'from vf_rt import v, q, it, cm\n' + ('def fn(p):\n' if in_def else '')
+    pre = ''
+    if construct == 'assign':
+        stmt = '%s =%s%s' % (n, pad, V)
+    elif construct == 'augassign':
+        pre = '%s%s = v()\n' % (ind, n)
+        stmt = '%s +=%s%s' % (n, pad, V)
+    elif construct == 'annassign':
+        stmt = '%s: v =%s%s' % (n, pad, V)
+    elif construct == 'walrus-stmt':
+        stmt = 'v((%s :=%s%s))' % (n, pad, V)
+    elif construct == 'return-after':
+        if not in_def:
+            return None
+        stmt = '%s =%s%s' % (n, pad, V)
+        read = 'return %s' % n
+    elif construct == 'walrus-operand':
+        a = '%s%sv((%s :=%s%s),\n%s        %s, q)\n' % (head, ind, n, pad, V, ind, n)
+        b = '%s%sv((%s :=%s%s), %s, q)\n' % (head, ind, n, pad, V, n)
+        return a, b
+    elif construct == 'walrus-if':
+        a = '%s%sif (%s :=%s%s):\n%s    %s\n' % (head, ind, n, pad, V, ind, read)
+        b = '%s%sif (%s :=%s%s): %s\n' % (head, ind, n, pad, V, read)
+        return a, b
+    elif construct == 'for-iter':
+        a = '%s%sfor %s in%s%s:\n%s    %s\n%s%s\n' % (head, ind, n, pad, V, ind, read, ind, read)
+        b = '%s%sfor %s in%s%s: %s\n%s%s\n' % (head, ind, n, pad, V, read, ind, read)
+        return a, b
+    elif construct == 'with-item':
+        a = '%s%swith cm(%s%s) as %s:\n%s    %s\n' % (head, ind, pad, V, n, ind, read)
+        b = '%s%swith cm(%s%s) as %s: %s\n' % (head, ind, pad, V, n, read)
+        return a, b
+    elif construct == 'with-second-item':
+        a = '%s%swith cm() as %s, cm(%s,%s%s) as c:\n%s    %s\n%s    v(c)\n' % (head, ind, n, n, pad, V, ind, read, ind)
+        b = '%s%swith cm() as %s, cm(%s,%s%s) as c: %s%sv(c)\n' % (head, ind, n, n, pad, V, read, sep)
+        return a, b
+    elif construct == 'assign-in-for-body':
+        a = '%s%sfor i in it():\n%s    %s =%s%s\n%s    %s\n' % (head, ind, ind, n, pad, V, ind, read)
+        b = '%s%sfor i in it(): %s =%s%s%s%s\n' % (head, ind, n, pad, V, sep, read)
+        return a, b
+    else:
+        raise ValueError(construct)
+    a = '%s%s%s%s\n%s%s\n' % (head, pre, ind, stmt, ind, read)
+    b = '%s%s%s%s%s%s\n' % (head, pre, ind, stmt, sep, read)
+    return a, b
+
+
+def work_mls(arg):
+    """every construct x value shape, `reps` random instantiations each: split layout vs joined layout, and one of
+    the two against its normal form and k random re-layouts (which may keep the string tokens and join statements)"""
+    seed, rep0, reps, k = arg
+    from vf import dynexec
+    part = core.Part()
+    mon = Monitor(part)
+    proj = dynexec.Project()
+    try:
+        for rep in range(rep0, rep0 + reps):
+            for c in MLS_CONSTRUCTS:
+                for sh in MLS_SHAPES:
+                    rng = random.Random('%s:C13:mls:%s:%s:%s' % (seed, rep, c, sh))
+                    pr = mls_pair(c, sh, rng)
+                    if pr is None:
+                        continue
+                    a, b = pr
+                    name = '%s/%s/%s' % (c, sh, rep)
+                    part.count('mls_programs')
+                    try:
+                        relayout.parse_quiet(a)
+                        relayout.parse_quiet(b)
+                    except SyntaxError:
+                        part.count('mls_programs_discarded:syntax(generator bug)')
+                        continue
+                    part.hist('mls_construct', c)
+                    part.hist('mls_shape', sh)
+                    meta = {'kind': 'mls', 'index': name, 'seed': seed, 'root_kind': 'gen', 'base': 'mls-joined',
+                            'layout': 'joined'}
+                    A = analyse(a, proj.filename, proj.root)
+                    if mon.pair(A, b, meta, proj.filename, proj.root, 'mls:%s:%s' % (seed, name),
+                                {'semicolon-joined': 1, 'multi-line-string': 1}):
+                        part.count('mls_pairs_compared(split vs joined)')
+                    meta = {'kind': 'mls', 'index': name, 'seed': seed, 'root_kind': 'gen'}
+                    mon.text(b if rng.random() < 0.3 else a, proj.filename, proj.root, meta, 'mls:%s:%s' % (seed, name),
+                             k, '%s:C13:mlslayout:%s' % (seed, name), base='unparse')
     finally:
         proj.close()
     out = part.dump()
@@ -922,6 +1225,9 @@ def main(run):
     if group:
         jobs.append(['work_files', [run.seed, group, k]])
     jobs.append(['work_probes', [run.seed, k]])
+    mls_reps = run.pick(2, 16)
+    for r in range(mls_reps):
+        jobs.append(['work_mls', [run.seed, r, 1, run.pick(2, 6)]])
     ngen = run.pick(300, 10000)
     per = run.pick(10, 100)
     for s in range(0, ngen, per):
@@ -948,6 +1254,8 @@ def main(run):
         'generated_programs': ngen,
         'relayouts_per_text': '1 normal form + %d random' % k,
         'probes': len(PROBES),
+        'multi_line_string_programs': '%d constructs x %d value shapes x %d instantiations, split vs joined + re-layouts' % (
+            len(MLS_CONSTRUCTS), len(MLS_SHAPES), mls_reps),
     }
     return run.finish(
         rule=RULE,
